@@ -69,6 +69,15 @@ let () =
             for _ = 1 to nw do
               expect "w"; ignore (next ()); let k = int () in for _ = 1 to 2 * k do ignore (next ()) done; ignore (rep ())
             done;
+            (* RobustPaths: like the FlexPaths above only their outlines (in F, after the FlexPath outlines) matter here;
+               the section is absent in payloads written before RobustPaths were generated *)
+            if !pos < Array.length toks && toks.(!pos) = "V" then begin
+              expect "V"; let nv = int () in
+              for _ = 1 to nv do
+                expect "v"; let ne = int () in for _ = 1 to 2 * ne do ignore (next ()) done;
+                let k = int () in for _ = 1 to 2 * k do ignore (next ()) done; ignore (rep ())
+              done
+            end;
             expect "F"; let nf = int () in let paths = List.init nf (fun _ -> poly ()) in
             expect "R"; let nr = int () in
             let refs = List.init nr (fun _ ->
